@@ -559,6 +559,19 @@ def r4_recording_robust(ctx, sym):
               "class OutOfStock(Exception):\n    def __str__(self): return 'only ' + 3\nraise OutOfStock()  -> "
               "run() raises TypeError into the instructor script instead of returning")
     format_line_rule(ctx, sym, 'R4')
+    # the helpers that word the exception's class name, executed on the names a student's class can have: ordinary,
+    # one letter, lower case, starting with a vowel, and empty (`type('', (Exception,), {})`)
+    tmod_ = ctx.repo.module('pedal.utilities.text')
+    art = tmod_.func('add_indefinite_article')
+    ctx.analysed_function(tmod_, art)
+    for cname in ('ValueError', 'E', 'error', 'OutOfStock', 'insufficientFunds', '_Private', ''):
+        got, raised = symexec.run(symexec.new_fd(sym, tmod_), art, [cname], what='add_indefinite_article')
+        ctx.check(raised is None and isinstance(got, str) and got.endswith(cname), 'R4',
+                  'add_indefinite_article[%r]' % cname, tmod_, art,
+                  "for an exception class named %r the wording helper %s" % (
+                      cname, 'raises %s' % raised.kind if raised is not None else 'returns %r' % (got,)),
+                  "raise type(%r, (Exception,), {})()  ->  run() raises IndexError into the instructor script instead "
+                  "of returning" % cname)
     ctx.floor('R4', 'functions in the taint closure', n_fns, 3)
     # (no floor on the number of conversion sites: the constructor is executed above for every message text, a failing
     #  __str__ included, wherever the conversion itself lives)
